@@ -253,17 +253,9 @@ def _mechanisms(ctx, ea, residues: Dict[str, Any]) -> List[Ob]:
     pos = {k: v for k, v in residues.items() if not (v == 0)}
     comp = ea.comp
     helper = ea.methods.get("_emit_pending_finally_blocks")
-    # O5 crossing residues at break / continue
-    for cls in ("BreakStatement", "ContinueStatement"):
-        body, line = _branch_body(ea, "_compile_statement", cls)
-        key = f"_compile_statement:{cls}:crossed-residues"
-        if not pos:
-            out.append(Ob("O5", key, True, "", _loc(ea, line), {"residues": "none"}))
-        elif _has_emit_in_loop_over(body, "POP", "loop_stack"):
-            out.append(Ob("O5", key, True, "", _loc(ea, line), {"residues": {k: repr(v) for k, v in pos.items()}, "mechanism": "POP per crossed context"}))
-        else:
-            what = "break" if cls == "BreakStatement" else "continue"
-            out.append(Ob("O5", key, False, f"contexts {sorted(pos)} keep {', '.join(repr(v) for v in pos.values())} operand(s) on the stack during their body, but the {what} branch emits no POP per crossed context: a labelled {what} (or a continue inside switch) that crosses one leaks its residue", _loc(ea, line)))
+    # O5 crossing residues at break / continue: the target-resolution code is interpreted over every
+    # two-context configuration [target, crossed] (finite domain; see sa/minieval.py)
+    out.extend(_crossing_obligations(ea, residues))
     # O6 return
     body, line = _branch_body(ea, "_compile_statement", "ReturnStatement")
     key = "_compile_statement:ReturnStatement:residues"
@@ -327,15 +319,21 @@ def _mechanisms(ctx, ea, residues: Dict[str, Any]) -> List[Ob]:
     for cls, what in (("BreakStatement", "break"), ("ContinueStatement", "continue")):
         body, line = _branch_body(ea, "_compile_statement", cls)
         dep = False
+        how = "unscoped"
         for s in body:
             for n in walk_no_nested(s):
                 if isinstance(n, ast.Call) and norm(n.func) == "self._emit_pending_finally_blocks" and (n.args or n.keywords):
-                    dep = True
-        key = f"_compile_statement:{cls}:finally-scope"
+                    # the scope of the inlined finally blocks must be derived from the resolved target context
+                    exprs = list(n.args) + [k.value for k in n.keywords]
+                    dep = "ctx" in [x.id for a in exprs for x in ast.walk(a) if isinstance(x, ast.Name)]
+                    how = "scoped-by:" + ",".join(norm(a) for a in exprs)
+        key = f"_compile_statement:{cls}:finally-scope" + ("" if how == "unscoped" else f":{how}")
         if dep:
             out.append(Ob("O12a", key, True, "", _loc(ea, line)))
-        else:
+        elif how == "unscoped":
             out.append(Ob("O12a", key, False, f"`{what}` inlines every pending finally block regardless of its target: a try…finally that encloses the loop runs its finally at the {what} and again on normal exit", _loc(ea, line)))
+        else:
+            out.append(Ob("O12a", key, False, f"`{what}` limits the finally blocks it inlines by `{how[10:]}`, which does not depend on the context the jump was resolved to: a finally between the {what} and its (labelled or outer-loop) target is skipped, or one around the target runs early", _loc(ea, line)))
     # O12b per-function compiler state
     readers = set()
     for cls in ("BreakStatement", "ContinueStatement", "ReturnStatement"):
@@ -356,6 +354,81 @@ def _mechanisms(ctx, ea, residues: Dict[str, Any]) -> List[Ob]:
                 out.append(Ob("O12b", key, True, "", f.loc))
             else:
                 out.append(Ob("O12b", key, False, f"{fname} does not save/reset/restore self.{attr}: break/continue/return inside the nested function see the enclosing function's {attr} (a return inside a function defined in try…finally inlines the outer finally)", f.loc))
+    return out
+
+
+def _ctx_kinds(ea, residues) -> Dict[str, Any]:
+    """Context kinds created by the statement compiler: name -> Obj(is_loop, label, residue)."""
+    from ..minieval import Obj
+
+    kinds = {}
+    for br in ea.run_chain("_compile_statement"):
+        for e in br.ends:
+            for c in e.ctxs:
+                name = LOOP_KINDS.get(br.cls, "switch" if br.cls == "SwitchStatement" else ("label" if br.cls == "LabeledStatement" else br.cls))
+                res = residues.get(name)
+                r = res.c if hasattr(res, "c") and res.is_const() else (0 if res is None else None)
+                kinds[name] = dict(is_loop=c.is_loop, labelled=c.labelled, residue=r)
+    return kinds
+
+
+def _crossing_obligations(ea, residues) -> List[Ob]:
+    from ..minieval import Aborted, Obj, Sim, Unsupported
+
+    out: List[Ob] = []
+    kinds = _ctx_kinds(ea, residues)
+    if len(kinds) < 6:
+        raise AnalysisError(f"only {len(kinds)} context kinds recognised: {sorted(kinds)}")
+
+    def mk(name, label=None):
+        k = kinds[name]
+        return Obj(kind=name, is_loop=k["is_loop"], label=(label if k["labelled"] else None), break_jumps=[], continue_jumps=[], residue=k["residue"])
+
+    for cls, what in (("BreakStatement", "break"), ("ContinueStatement", "continue")):
+        body, line = _branch_body(ea, "_compile_statement", cls)
+        scenarios = []
+        for xname in kinds:
+            if what == "continue":
+                # unlabelled continue: innermost context X inside a plain loop T
+                scenarios.append((f"unlabelled continue inside {xname} inside while", [mk("while"), mk(xname, "X")], None))
+            else:
+                scenarios.append((f"unlabelled break inside {xname} inside while", [mk("while"), mk(xname, "X")], None))
+                scenarios.append((f"`break L` inside {xname} inside L: {{...}}", [mk("label", "L"), mk(xname, "X")], "L"))
+        for desc, stack, label in scenarios:
+            x = stack[-1]
+            t = stack[0]
+            node = Obj(label=(Obj(name=label) if label else None), loc=None)
+            sim = Sim({"node": node, "self": Obj(loop_stack=list(stack), try_stack=[]), "None": None, "True": True, "False": False})
+            key = f"_compile_statement:{cls}:crossing:{x.kind}:{'labelled' if label else 'unlabelled'}"
+            try:
+                sim.run(body)
+            except Aborted:
+                continue
+            except Unsupported as e:
+                out.append(Ob("O5", key, False, f"{cls}: target resolution uses a construct the crossing analysis cannot interpret ({e})", _loc(ea, line)))
+                continue
+            except Exception as e:  # interpretation error: treat as unsupported
+                out.append(Ob("O5", key, False, f"{cls}: crossing analysis failed ({type(e).__name__}: {e})", _loc(ea, line)))
+                continue
+            sel = sim.env.get("ctx")
+            # which context does the language select?
+            if label:
+                want = t
+            elif what == "continue":
+                want = x if x.is_loop else t
+            else:
+                want = x if (x.is_loop or x.label is None) else t
+            if sel is None:
+                continue
+            if sel is not want:
+                out.append(Ob("O5", key + ":target", False, f"{desc}: the jump is attached to the {getattr(sel, 'kind', '?')} context instead of the {want.kind} one", _loc(ea, line)))
+                continue
+            crossed = [x] if want is t else []
+            need = sum(c.residue or 0 for c in crossed)
+            if sim.pops == need:
+                out.append(Ob("O5", key, True, "", _loc(ea, line), {"scenario": desc, "pops": sim.pops, "residue_crossed": need}))
+            else:
+                out.append(Ob("O5", key, False, f"{desc}: the {what} emits {sim.pops} POP(s) but crosses a context that keeps {need} operand(s) on the stack: each execution {'leaks' if sim.pops < need else 'removes'} {abs(need - sim.pops)} operand(s) {'(memory grows, later operands are misread)' if sim.pops < need else '(an enclosing expression or loop iterator is lost)'}", _loc(ea, line)))
     return out
 
 
